@@ -35,6 +35,7 @@ type Prog struct {
 	fns     []*ssa.Function // every repository function incl. anonymous ones, sorted
 	cg      *callgraph.Graph
 	cgLite  *cgLite
+	lockEngine *LockEngine
 	LoadS   float64
 
 	closureSites map[*ssa.Function][]*ssa.MakeClosure
